@@ -14,7 +14,8 @@ VARIABLES l, st, skipping, fails, cs
 U == INSTANCE ClientURL WITH Variant <- "fixed"
 
 Req(r) == [media |-> r.media, method |-> r.method, presetct |-> r.presetct, payload |-> r.payload.kind,
-           fields |-> r.fields, files |-> r.files, auth |-> r.auth, k |-> r.k]
+           fields |-> r.fields, files |-> r.files, auth |-> r.auth, k |-> r.k,
+           fault |-> r.payload.fail, debug |-> r.debug]
 BInit(e) == [reqs |-> [i \in 1..Len(e.reqs) |-> Req(e.reqs[i])]]
 
 Ids(e) == [payload |-> e.supplied.payload, files |-> e.supplied.files]
@@ -26,10 +27,11 @@ Obs(e) == [err |-> e.err, ctmedia |-> e.ctmedia, boundary |-> e.boundary, kind |
            pairs |-> Pairs(e), parts |-> e.parts, payload |-> e.payload, producers |-> e.producers]
 
 BAllowed(s, e) ==
-  CASE e.ev = "sent" -> /\ ~e.err
-                        /\ RawOK(e)
-                        /\ BodyOK(s.reqs[e.req], Ids(e), Obs(e))
-                        /\ AuthOK(s.reqs[e.req], e.auth_saw, e.body_sha)
+  CASE e.ev = "sent" -> \/ MayFail(s.reqs[e.req]) /\ e.err /\ ~e.panic     \* a failing payload reader may fail the call ...
+                        \/ /\ ~e.err                                        \* ... a call that succeeds satisfies C11 in full
+                           /\ RawOK(e)
+                           /\ BodyOK(s.reqs[e.req], Ids(e), Obs(e))
+                           /\ AuthOK(s.reqs[e.req], e.auth_saw, e.body_sha)
     [] OTHER -> FALSE
 
 BWhy(s, e) ==
